@@ -46,9 +46,18 @@ func LoadSchemas(sdl string) (*Schemas, error) {
 }
 
 // LoadQuery parses + validates with gqlparser.
-func (s *Schemas) LoadQuery(q string) (*gast.QueryDocument, gqlerror.List) {
+func (s *Schemas) LoadQuery(q string) (doc *gast.QueryDocument, errs gqlerror.List) {
+	defer func() {
+		if r := recover(); r != nil {
+			// gqlparser itself can panic on some invalid documents; the oracle is then unavailable
+			doc, errs = nil, gqlerror.List{gqlerror.Errorf("%s: %v", GqlparserPanic, r)}
+		}
+	}()
 	return gqlparser.LoadQuery(s.Gql, q)
 }
+
+// GqlparserPanic prefixes the error returned when gqlparser panicked.
+const GqlparserPanic = "gqlparser panicked"
 
 func PickOperation(doc *gast.QueryDocument, name string) *gast.OperationDefinition {
 	if name == "" {
